@@ -3,11 +3,14 @@
   functions of Generated/Device.lean read (getter / field names = Go names), the reference storage's
   device part (twin of harness/internal/refstore DevicePart), and the parts of device.go that factgen
   does not translate (loops, url handling, crypto/rand): NewUserCode as a function of the drawn indices,
-  NewDeviceCode as a function of the drawn bytes, createDeviceAuthorization, ClientIDFromRequest without
-  client assertions.  Tied to the code by the C16 correspondence stream.
+  NewDeviceCode as a function of the drawn bytes, createDeviceAuthorization (the query of the complete
+  verification URI is `url.Values{"user_code": {userCode}}.Encode()`, through the byte-level model of
+  url.QueryEscape in Model/Query.lean), ClientIDFromRequest without client assertions.
+  Tied to the code by the C16 correspondence stream.
 -/
 import OidcModel.Model.OP
 import OidcModel.Model.Base64
+import OidcModel.Model.Query
 
 namespace Const
 def DeadlineExceeded := "context.DeadlineExceeded"
@@ -190,6 +193,15 @@ def issueForDevice (_now : Int) (st : DeviceAuthorizationState) (p : DevProvider
 
 def asStatusError (err : String) (_status : Int) : String := err
 
+/-- a byte of an escaped (hence ASCII) string as a character -/
+def devAsciiChar (b : UInt8) : Char := Char.ofNat b.toNat
+
+/-- `url.QueryEscape(s)`: Go strings are byte sequences (the UTF-8 of the text); the result is ASCII -/
+def devQueryEscape (s : String) : String := String.ofList ((Query.escape s.toUTF8.toList).map devAsciiChar)
+
+/-- `url.Values{k: {v}}.Encode()` of a single pair: both sides escaped, joined by `=` -/
+def devEncodeQuery (k v : String) : String := devQueryEscape k ++ "=" ++ devQueryEscape v
+
 /-- `createDeviceAuthorization(ctx, req, clientID, o)` with refstore's StoreDeviceAuthorization -/
 def createDeviceAuthorization (now : Int) (req : DevFormData) (clientID : String) (o : DevProvider) : Go.R DeviceAuthorizationResponse :=
   if !o.deviceCap then .error "ErrUnsupportedGrantType" else
@@ -204,7 +216,7 @@ def createDeviceAuthorization (now : Int) (req : DevFormData) (clientID : String
       if o.devices.any (·.userCode == userCode) then .error "ErrDuplicateUserCode" else
       let uri := o.p.issuer ++ o.cfg.UserFormPath
       .ok { DeviceCode := deviceCode, UserCode := userCode, VerificationURI := uri,
-            VerificationURIComplete := uri ++ "?user_code=" ++ userCode,
+            VerificationURIComplete := uri ++ "?" ++ devEncodeQuery "user_code" userCode,
             ExpiresIn := o.cfg.Lifetime / Go.second, Interval := o.cfg.PollInterval / Go.second,
             clientID := clientID, scopes := req.Scopes, expires := now + o.cfg.Lifetime }
 
